@@ -17,13 +17,16 @@ def in_scope(t):
     m = t['meta']
     if m.get('c20') or p['type'] != 'direct':
         return False
-    if any(o['op'] not in ('pause', 'resume', 'stop') for o in (m.get('ops') or [])):
+    if any(o['op'] not in ('pause', 'resume', 'stop', 'rerun', 'skip') for o in (m.get('ops') or [])):
         return False
-    if p['flags'].get('multi_trigger') or p['flags'].get('sub') or p['flags'].get('items'):
+    if p['flags'].get('multi_trigger') or p['flags'].get('sub'):
         return False
     for n, d in p['tasks'].items():
-        # retry, wait-before, wait-after and timeout are modelled; pause-before, fail-on, with-items, sub-workflows are not
-        if d['kind'] != 'action' or d['items'] >= 0 or d['pauseBefore'] or d['failOn']:
+        # retry, wait-before, wait-after, timeout and with-items (with concurrency) are modelled; pause-before, fail-on,
+        # sub-workflows and with-items combined with another policy are not
+        if d['kind'] != 'action' or d['pauseBefore'] or d['failOn']:
+            return False
+        if d['items'] >= 0 and (d['retry'] or d['waitBefore'] or d['waitAfter'] or d['timeout']):
             return False
     # a task name must not be instantiated twice (e.g. the same target named by on-success and on-complete)
     last = t['steps'][-1]['obs']
@@ -36,9 +39,10 @@ def def_tla(prog):
     return tla(d)
 
 
-INVARIANTS = ['TypeOK', 'NoHangM', 'NoWaitingAtRestM', 'JoinOnceM', 'StartOnceM', 'FinalIffLastM', 'StopAtFirstSuccessM']
+INVARIANTS = ['TypeOK', 'NoHangM', 'NoWaitingAtRestM', 'JoinOnceM', 'StartOnceM', 'FinalIffLastM', 'StopAtFirstSuccessM',
+              'OnePerIndexM', 'WithinLimitM', 'CompleteAfterAllM']
 PROPERTIES = ['JoinGateM', 'FinishedFrozenM', 'ResultOnceM', 'SuccessStickyM', 'LegalWfM', 'NoNewTasksWhilePausedM', 'NoNewTasksAfterStopM',
-              'PauseAckM', 'StopAckM', 'DupNoEffectM']
+              'PauseAckM', 'StopAckM', 'DupNoEffectM', 'RerunAckM', 'SkipAckM']
 
 
 def model_check(d, name, prog, liveness=False, timeout=1800, confluence=False, ops=0, dups=0, workers=None,
@@ -48,7 +52,7 @@ def model_check(d, name, prog, liveness=False, timeout=1800, confluence=False, o
     with open(os.path.join(d, mc + '.tla'), 'w') as fh:
         fh.write('---- MODULE %s ----\nEXTENDS MistralEngine\nDConst == %s\nMCInit == D = DConst /\\ Init /\\ TLCSet(1, <<>>)\n'
                  'MCSpec == MCInit /\\ [][Next]_vars\nMCFairSpec == MCSpec /\\ WF_vars(Next)\nTimeBound == now <= 20 /\\ InDomain\nMCOpKinds == %s\n====\n' % (mc, def_tla(prog), tla(set(kinds))))
-    consts = 'CONSTANT OpBudget = %d\nCONSTANT DupBudget = %d\nCONSTANT NoopOps = FALSE\nCONSTANT OpKinds <- MCOpKinds\nCONSTANT Scheduler = "%s"\n' % (ops, dups, scheduler)
+    consts = 'CONSTANT OpBudget = %d\nCONSTANT DupBudget = %d\nCONSTANT NoopOps = FALSE\nCONSTANT QuietRerun = TRUE\nCONSTANT OpKinds <- MCOpKinds\nCONSTANT Scheduler = "%s"\n' % (ops, dups, scheduler)
     with open(os.path.join(d, mc + '.cfg'), 'w') as fh:
         fh.write('SPECIFICATION %s\nVIEW view\nCONSTRAINT TimeBound\n%s%s%s%sCHECK_DEADLOCK FALSE\n'
                  % ('MCFairSpec' if liveness else 'MCSpec', consts, ''.join('INVARIANT %s\n' % i for i in INVARIANTS),
@@ -91,7 +95,7 @@ def strict_validate(d, traces, tag='strict', chunk=60, dump=False, tlc_timeout=4
             fh.write('---- MODULE MC_EngineTrace_%s_%d ----\nEXTENDS EngineTrace\n====\n' % (tag, k))
         cfgp = mod[:-4] + '.cfg'
         with open(cfgp, 'w') as fh:
-            fh.write('SPECIFICATION TSpec\nCONSTANT OpBudget = 1000\nCONSTANT DupBudget = 1000\nCONSTANT NoopOps = TRUE\nCONSTANT OpKinds <- AllOpKinds\nCONSTANT Scheduler = "%s"\nCONSTRAINT %s\nCHECK_DEADLOCK FALSE\n'
+            fh.write('SPECIFICATION TSpec\nCONSTANT OpBudget = 1000\nCONSTANT DupBudget = 1000\nCONSTANT NoopOps = TRUE\nCONSTANT QuietRerun = FALSE\nCONSTANT OpKinds <- AllOpKinds\nCONSTANT Scheduler = "%s"\nCONSTRAINT %s\nCHECK_DEADLOCK FALSE\n'
                      % (sch, 'DumpReport' if dump else 'Report'))
         try:
             r = common.run_tlc(mod, cfgp, workers=1, env={'TRACE_FILE': tf}, timeout=tlc_timeout, metatag='engstrict%s%d' % (tag, k), heap='3g')
